@@ -25,6 +25,19 @@ type handlerInfo struct {
 	CauseIdx int // -1 if none
 	Ctor     *ssa.Function
 	CtorCall *ssa.Call
+	// the decision (record? return?) may live in a helper shared by the handlers: `return p.report(u, e, failure)`
+	Core                                *ssa.Function
+	CoreCall                            *ssa.Call
+	CoreUrlIdx, CoreErrIdx, CoreFailIdx int
+}
+
+// body returns the function holding the handler's decision and, in it, the values standing for the URL, the
+// constructed error and the failure flag.
+func (h *handlerInfo) body() (fn *ssa.Function, url, e, fail ssa.Value) {
+	if h.Core != nil {
+		return h.Core, h.Core.Params[h.CoreUrlIdx], h.Core.Params[h.CoreErrIdx], h.Core.Params[h.CoreFailIdx]
+	}
+	return h.Fn, h.Fn.Params[h.UrlIdx], h.CtorCall, h.Fn.Params[h.FailIdx]
 }
 
 // handlerSite is one call of a handler.
@@ -43,6 +56,7 @@ type handlerSite struct {
 type errModel struct {
 	Ctors     map[*ssa.Function]bool
 	Handlers  map[*ssa.Function]*handlerInfo
+	Cores     map[*ssa.Function]bool // shared decision helpers of the handlers
 	Sites     []*handlerSite
 	TypeNames map[string]string // constant value -> name
 	Problems  []string
@@ -122,6 +136,57 @@ func buildErrModel(c *Ctx) *errModel {
 				}
 			}
 		}
+		// a shared core: the handler's only return hands (u, e, failure) to one module function and returns its answer
+		m.Cores = map[*ssa.Function]bool{}
+		for _, h := range m.Handlers {
+			var rets []*ssa.Return
+			for _, b := range h.Fn.Blocks {
+				if r, ok := b.Instrs[len(b.Instrs)-1].(*ssa.Return); ok {
+					rets = append(rets, r)
+				}
+			}
+			if len(rets) != 1 || len(rets[0].Results) != 1 {
+				continue
+			}
+			call, ok := rets[0].Results[0].(*ssa.Call)
+			if !ok || call == h.CtorCall {
+				continue
+			}
+			g := call.Common().StaticCallee()
+			if g == nil || !c.P.InModule(g) || len(g.Blocks) == 0 || m.Handlers[g] != nil {
+				continue
+			}
+			ui, ei, fi := -1, -1, -1
+			for i, a := range call.Common().Args {
+				switch a {
+				case ssa.Value(h.Fn.Params[h.UrlIdx]):
+					ui = i
+				case ssa.Value(h.CtorCall):
+					ei = i
+				case ssa.Value(h.Fn.Params[h.FailIdx]):
+					fi = i
+				}
+			}
+			if ui < 0 || ei < 0 || fi < 0 {
+				continue
+			}
+			h.Core, h.CoreCall, h.CoreUrlIdx, h.CoreErrIdx, h.CoreFailIdx = g, call, ui, ei, fi
+			m.Cores[g] = true
+		}
+		// a core is private to the handlers
+		if len(m.Cores) > 0 {
+			ix := sitesOf(c)
+			for g := range m.Cores {
+				if ix.taken[g] {
+					m.Problems = append(m.Problems, core.FuncName(g)+" (shared part of the error handlers) is used as a value")
+				}
+				for _, cs := range ix.sites[g] {
+					if m.Handlers[cs.Fn] == nil {
+						m.Problems = append(m.Problems, fmt.Sprintf("%s (shared part of the error handlers) is also called from %s", core.FuncName(g), core.FuncName(cs.Fn)))
+					}
+				}
+			}
+		}
 		// call sites
 		count := map[string]int{}
 		for _, f := range c.P.ModFns {
@@ -157,6 +222,41 @@ func buildErrModel(c *Ctx) *errModel {
 		}
 		return m
 	}).(*errModel)
+}
+
+// appendsExactly: append(s, v) with exactly the one element v.
+func appendsExactly(call *ssa.Call, v ssa.Value) bool {
+	if len(call.Common().Args) != 2 {
+		return false
+	}
+	sl, ok := call.Common().Args[1].(*ssa.Slice)
+	if !ok {
+		return false
+	}
+	al, ok := sl.X.(*ssa.Alloc)
+	if !ok {
+		return false
+	}
+	if arr, ok := al.Type().Underlying().(*types.Pointer).Elem().Underlying().(*types.Array); !ok || arr.Len() != 1 {
+		return false
+	}
+	stores := 0
+	good := false
+	for _, r := range *al.Referrers() {
+		ia, ok := r.(*ssa.IndexAddr)
+		if !ok {
+			continue
+		}
+		for _, r2 := range *ia.Referrers() {
+			if st, ok := r2.(*ssa.Store); ok {
+				stores++
+				if st.Val == v {
+					good = true
+				}
+			}
+		}
+	}
+	return stores == 1 && good
 }
 
 // ---- tiny CFG path enumeration with branch atoms (for ERR-shape) ----
@@ -281,7 +381,8 @@ func init() {
 				s.Check(len(bad) == 0, key+"/wiring", pos, "constructor receives errorType, u.inputUrl, failure (descr/cause) unchanged", strings.Join(bad, "; "))
 
 				// (2) truth table
-				paths, ok := enumPaths(h.Fn, 64)
+				bodyFn, urlVal, eVal, failVal := h.body()
+				paths, ok := enumPaths(bodyFn, 64)
 				if !ok {
 					s.Unknown(key+"/table", pos, "handler body is not a small decision DAG")
 					continue
@@ -302,7 +403,7 @@ func init() {
 						}
 						break
 					}
-					if v == ssa.Value(h.Fn.Params[h.FailIdx]) {
+					if v == failVal {
 						return aF, neg, true
 					}
 					switch optLoad(v) {
@@ -348,9 +449,9 @@ func init() {
 					case *ssa.Const:
 						retE = !x.IsNil()
 					default:
-						retE = res == ssa.Value(h.CtorCall)
+						retE = res == eVal
 					}
-					if _, isC := res.(*ssa.Const); !isC && res != ssa.Value(h.CtorCall) {
+					if _, isC := res.(*ssa.Const); !isC && res != eVal {
 						tableOK = false
 						tableBad = append(tableBad, "returns a value that is neither nil nor the constructed error")
 					}
@@ -359,11 +460,15 @@ func init() {
 					for _, b := range p.Blocks {
 						for _, ins := range b.Instrs {
 							if st, isS := ins.(*ssa.Store); isS {
-								if fa, isF := st.Addr.(*ssa.FieldAddr); isF && fieldElem(fa.X.Type(), fa.Field) == "Url:validationErrors" && fa.X == ssa.Value(h.Fn.Params[h.UrlIdx]) {
+								if fa, isF := st.Addr.(*ssa.FieldAddr); isF && fieldElem(fa.X.Type(), fa.Field) == "Url:validationErrors" && fa.X == urlVal {
 									// value must be append(load same field, e)
 									if call, isCall := st.Val.(*ssa.Call); isCall {
 										if bi, isB := call.Common().Value.(*ssa.Builtin); isB && bi.Name() == "append" {
 											appended = true
+											if !appendsExactly(call, eVal) {
+												tableOK = false
+												tableBad = append(tableBad, "what is recorded is not (only) the constructed error")
+											}
 										}
 									}
 								}
@@ -530,20 +635,28 @@ func init() {
 							key := fmt.Sprintf("use/%s/%s#%d", core.FuncName(f), el, counts[el])
 							if isInitializer(f) || f.Parent() != nil && strings.HasPrefix(f.Parent().Name(), "With") {
 								// the option constructor's closure writes it
+								// stored to, or its address handed to the helper that stores to it (what the option does to
+								// the field is decided by OPT-bij's evaluation of the constructor)
 								onlyStore := true
 								for _, r := range *fa.Referrers() {
-									if _, isS := r.(*ssa.Store); !isS {
+									switch y := r.(type) {
+									case *ssa.Store:
+										if y.Addr != ssa.Value(fa) {
+											onlyStore = false
+										}
+									case *ssa.Return:
+									default:
 										onlyStore = false
 									}
 								}
 								s.Check(onlyStore, key, c.P.Pos(fa.Pos()), "written by its option constructor", "option closure reads the flag")
 								continue
 							}
-							s.Check(m.Handlers[f] != nil, key, c.P.Pos(fa.Pos()), "read inside a handler", "diagnostics option is consulted outside the error handlers: it can influence the parse result")
+							s.Check(m.Handlers[f] != nil || m.Cores[f], key, c.P.Pos(fa.Pos()), "read inside a handler", "diagnostics option is consulted outside the error handlers: it can influence the parse result")
 						case "Url:validationErrors":
 							counts[el]++
 							key := fmt.Sprintf("use/%s/%s#%d", core.FuncName(f), el, counts[el])
-							if m.Handlers[f] != nil {
+							if m.Handlers[f] != nil || m.Cores[f] {
 								s.OK(key, c.P.Pos(fa.Pos()), "handler's append")
 								continue
 							}
@@ -1036,7 +1149,6 @@ func aliasOrPhiOf(v ssa.Value, alias map[ssa.Value]bool) bool {
 	}
 	return false
 }
-
 
 // hasRetry: the function re-parses a concatenated text (the default-scheme retry idiom, governed by OPT-retry).
 func hasRetry(f *ssa.Function) bool {
